@@ -191,8 +191,25 @@ def extract(repo):
     drp = re.search(r"impl Drop for Stack \{(.*?)\n\}", stk2, re.S)
     if not rst or "release_cells()" not in rst.group(1) or not drp or "release_cells()" not in drp.group(1):
         heap_refused.append("Stack::reset / Drop do not release the arena cells")
-    for m in re.finditer(r"(?:\.inner|stack)\.push\(", "\n".join(so)):
-        pass
+    # (I1) every cell that reaches the simulated stack is created by Stack::push (registered in the arena) or is
+    # an alias of a cell already on the stack (DUP): no other code may write into `Stack::inner`
+    for root, _, files in os.walk(os.path.join(repo, "src")):
+        for fn in sorted(files):
+            if not fn.endswith(".rs") or fn == "verif.rs":
+                continue
+            lines = strip_comments(open(os.path.join(root, fn)).read()).split("\n")
+            for i, l in enumerate(lines):
+                if not re.search(r"\binner\s*\.\s*(push|insert|extend|append|splice|resize|swap|truncate_and_push)\s*\(|\binner\s*=[^=]|mem::(swap|replace)\([^)]*inner", l):
+                    continue
+                window = "\n".join(lines[max(0, i - 12):i + 1])
+                if fn == "stack.rs" and re.search(r"pub fn push\(&mut self, value: StackObject\)", window) and "self.inner.push(cell)" in l:
+                    continue
+                m = re.search(r"inner\.push\((\w+)\.clone\(\)\)", l)
+                if fn == "stack_ops.rs" and m and re.search(r"Some\(%s\)\s*=\s*self\.peek\(\)" % m.group(1), window):
+                    continue        # DUP: alias of the top cell
+                if fn == "stack.rs" and re.search(r"inner:\s*self\.inner\.clone\(\)|inner\.clear\(\)", l):
+                    continue
+                heap_refused.append("%s:%d writes into Stack::inner other than through Stack::push / DUP: `%s`" % (fn, i + 1, l.strip()[:80]))
     R["heap_refused"] = heap_refused
     R["mut_sites"] = sites
     # module table facts
